@@ -69,7 +69,7 @@ class ZbossZDO(ZigpyZDO):
                 ClusterId=cluster,
                 DstAddrMode=addr_mode,
                 DstAddr=dst_eui64,
-                DstEndpoint=dst_address.endpoint,
+                DstEndpoint=dst_address.endpoint or 0,
             )
         )
         if res.StatusCode != 0:
@@ -110,7 +110,7 @@ class ZbossZDO(ZigpyZDO):
                 ClusterId=cluster,
                 DstAddrMode=addr_mode,
                 DstAddr=dst_eui64,
-                DstEndpoint=dst_address.endpoint,
+                DstEndpoint=dst_address.endpoint or 0,
             )
         )
         if res.StatusCode != 0:
